@@ -23,12 +23,14 @@ def usable(a):
     return a[2] != 0 and a[1] != 0
 
 
-def check_retained(addrs, where):
+def check_retained(addrs, where, mapped=True):
     bad = []
     for a in addrs:
         if a[2] == 0:
             bad.append(("port-zero-retained", "%s: an address with port 0 is retained (%s)" % (where, G.show_addr(a))))
-        if a[1] == 0:
+        # unspecified = 0.0.0.0, :: and 0.0.0.0 in the IPv4-mapped form ::ffff:0.0.0.0 (a dual-stack socket connects the
+        # mapped form to the IPv4 unspecified address; the code's own sa_is_any counts it)
+        if a[1] == 0 or (mapped and a[0] == 6 and a[1] == 0xffff00000000):
             bad.append(("unspecified-address-retained", "%s: the unspecified address is retained as a peer (%s)" % (where, G.show_addr(a))))
     return bad
 
@@ -78,7 +80,7 @@ def oracle(case, line):
             else:
                 bad.append(("normal-not-exact", "dictionary-form list: result is not exactly the entries with valid ip and 0 < port < 65536"))
         elif got is not None:
-            bad += check_retained(G.parse_addrs(got), "parse_address_normal")
+            bad += check_retained(G.parse_addrs(got), "parse_address_normal", mapped=False)   # parser stage: the mapped form is dropped later, by PeerList::insert_available
     elif kind == "PL":
         if not line.startswith("OK "):
             return [("crash", "PeerList pipeline: " + line[:200])]
